@@ -57,11 +57,11 @@ func encFrame(key uint64, idx uint32, data []byte) []byte {
 
 // scriptPeer plays prepared byte strings.
 type scriptPeer struct {
-	opens    bool     // true: the script opens the streams (sender role)
-	streams  [][]byte // [0] = control
-	noFin    map[int]bool
+	opens     bool     // true: the script opens the streams (sender role)
+	streams   [][]byte // [0] = control
+	noFin     map[int]bool
 	closeConn bool
-	lingerMs int
+	lingerMs  int
 }
 
 type scriptResult struct {
@@ -534,4 +534,377 @@ func c07Field(sp c07Spec) string {
 		return "none"
 	}
 	return strings.Join(uniq, "+")
+}
+
+// ---------------- C15 ----------------
+
+type c15Mut struct {
+	Stream int    `json:"stream"` // index into the script's streams
+	Kind   string `json:"kind"`   // trunc byte u32max u32zero u16max dup drop ins type magic
+	Pos    int    `json:"pos"`    // per-mille of the stream length (or record ordinal for "type")
+	Val    int    `json:"val"`
+}
+
+type c15Spec struct {
+	Base      txSpec   `json:"base"`
+	Target    string   `json:"target"` // recv | send
+	Muts      []c15Mut `json:"mutations"`
+	CloseConn bool     `json:"close_conn"`
+	LingerMs  int      `json:"linger_ms"`
+}
+
+type c15Harness struct{}
+
+var c15Kinds = []string{"trunc", "trunc", "byte", "byte", "u32max", "u32max", "u32zero", "u16max", "dup", "drop", "ins", "type", "magic", "lenfield"}
+
+func (c15Harness) Gen(r *verifsim.SplitMix, tier string, idx int) any {
+	b := txSpec{Prop: "C15", Seed: r.Next(), ContentSeed: r.Next()}
+	b.Chunk = []uint32{64, 256, 1024}[r.Intn(3)]
+	b.Streams = 1 + r.Intn(2)
+	b.Conns = 1
+	b.ResumeS, b.ResumeR = true, r.Chance(1, 2)
+	b.Hash = "crc32c"
+	b.NoRoot = true
+	b.Scan = "root"
+	b.SenderCli = true
+	b.SegMax = []int{7, 200, 65536}[r.Intn(3)]
+	nf := 1 + r.Intn(3)
+	for i := 0; i < nf; i++ {
+		b.Files = append(b.Files, txFile{P: fmt.Sprintf("f%d.bin", i), N: r.Intn(3*int(b.Chunk) + 1)})
+	}
+	b.Strat = verifsim.Strategy{Kind: []string{"rand", "fifo", "weighted"}[r.Intn(3)], Seed: r.Next(), MaxW: 6}
+	sp := c15Spec{Base: b, Target: []string{"recv", "recv", "send"}[r.Intn(3)], CloseConn: r.Chance(1, 2), LingerMs: []int{0, 500, 3000}[r.Intn(3)]}
+	nm := 1
+	if r.Chance(1, 4) {
+		nm = 2
+	}
+	for i := 0; i < nm; i++ {
+		pos := r.Intn(1001)
+		if r.Chance(1, 3) {
+			pos = r.Intn(60) // early bytes: headers and announcements
+		}
+		sp.Muts = append(sp.Muts, c15Mut{Stream: r.Intn(3), Kind: c15Kinds[r.Intn(len(c15Kinds))], Pos: pos, Val: r.Intn(1 << 16)})
+	}
+	return sp
+}
+
+func (c15Harness) Decode(raw json.RawMessage) (any, error) {
+	var sp c15Spec
+	err := json.Unmarshal(raw, &sp)
+	return sp, err
+}
+
+func (c15Harness) Shrink(spec any) []any {
+	sp := spec.(c15Spec)
+	var out []any
+	for i := range sp.Muts {
+		c := sp
+		c.Muts = append(append([]c15Mut(nil), sp.Muts[:i]...), sp.Muts[i+1:]...)
+		if len(c.Muts) > 0 {
+			out = append(out, c)
+		}
+	}
+	for i := range sp.Base.Files {
+		if len(sp.Base.Files) > 1 {
+			c := sp
+			c.Base = cloneSpec(sp.Base)
+			c.Base.Files = append(c.Base.Files[:i], c.Base.Files[i+1:]...)
+			out = append(out, c)
+		}
+	}
+	if sp.Base.Streams > 1 {
+		c := sp
+		c.Base = cloneSpec(sp.Base)
+		c.Base.Streams = 1
+		out = append(out, c)
+	}
+	if sp.Base.SegMax != 65536 {
+		c := sp
+		c.Base = cloneSpec(sp.Base)
+		c.Base.SegMax = 65536
+		out = append(out, c)
+	}
+	if sp.LingerMs != 0 {
+		c := sp
+		c.LingerMs = 0
+		out = append(out, c)
+	}
+	if sp.Base.Strat.Kind != "fifo" {
+		c := sp
+		c.Base = cloneSpec(sp.Base)
+		c.Base.Strat.Kind = "fifo"
+		out = append(out, c)
+	}
+	return out
+}
+
+// recordBoundaries returns the start offsets of the control records in a
+// sender (withHeader) or receiver control stream.
+func recordBoundaries(b []byte, withHeader bool) []int64 {
+	ps := &posStream{r: bytes.NewReader(b)}
+	var offs []int64
+	if withHeader {
+		if _, err := readControlHeader(ps); err != nil {
+			return offs
+		}
+	}
+	for ps.r.Len() > 0 {
+		at := ps.pos()
+		if _, _, err := readControlMessage(ps); err != nil {
+			break
+		}
+		offs = append(offs, at)
+	}
+	return offs
+}
+
+func applyMut(b []byte, m c15Mut, isControl, withHeader bool, r *verifsim.SplitMix) ([]byte, string) {
+	if len(b) == 0 {
+		return b, ""
+	}
+	pos := m.Pos
+	if pos <= 60 && m.Pos < 60 {
+		// absolute early offset
+	} else {
+		pos = (len(b) - 1) * m.Pos / 1000
+	}
+	if pos >= len(b) {
+		pos = len(b) - 1
+	}
+	out := append([]byte(nil), b...)
+	put := func(n int, v byte) {
+		for i := 0; i < n && pos+i < len(out); i++ {
+			out[pos+i] = v
+		}
+	}
+	switch m.Kind {
+	case "trunc":
+		return out[:pos], "trunc"
+	case "byte":
+		v := []byte{0x00, 0xFF, out[pos] + 1, out[pos] - 1, byte(m.Val)}[m.Val%5]
+		out[pos] = v
+		return out, "byte"
+	case "u32max":
+		put(4, 0xFF)
+		return out, "u32max"
+	case "u32zero":
+		put(4, 0x00)
+		return out, "u32zero"
+	case "u16max":
+		put(2, 0xFF)
+		return out, "u16max"
+	case "dup":
+		n := 1 + m.Val%64
+		if pos+n > len(out) {
+			n = len(out) - pos
+		}
+		seg := append([]byte(nil), out[pos:pos+n]...)
+		return append(out[:pos+n], append(seg, b[pos+n:]...)...), "dup"
+	case "drop":
+		n := 1 + m.Val%64
+		if pos+n > len(out) {
+			n = len(out) - pos
+		}
+		return append(out[:pos], b[pos+n:]...), "drop"
+	case "ins":
+		n := 1 + m.Val%32
+		junk := make([]byte, n)
+		for i := range junk {
+			junk[i] = byte(r.Next())
+		}
+		return append(out[:pos], append(junk, b[pos:]...)...), "ins"
+	case "type":
+		if !isControl {
+			return out, ""
+		}
+		offs := recordBoundaries(b, withHeader)
+		if len(offs) == 0 {
+			return out, ""
+		}
+		o := offs[m.Pos%len(offs)]
+		out[o] = []byte{0x7E, 0x00, 0x11, 0x16, 0x13, 0x14, 0x10, 0xFF}[m.Val%8]
+		return out, "type"
+	case "magic":
+		out[m.Val%4%len(out)] ^= 0x20
+		return out, "magic"
+	case "lenfield":
+		// absurd values in the length-bearing fields of the first records / frames
+		if isControl && withHeader && len(out) >= 8 && m.Val%3 != 0 {
+			copy(out[4:8], []byte{0xFF, 0xFF, 0xFF, byte(m.Val)})
+			return out, "lenfield:manifest"
+		}
+		if isControl && withHeader {
+			// chunk size / file size of the first FileBegin
+			for _, o := range recordBoundaries(b, true) {
+				if b[o] != controlTypeFileBegin || int(o)+3 > len(b) {
+					continue
+				}
+				pl := int(b[o+1])<<8 | int(b[o+2])
+				fs := int(o) + 3 + pl
+				if fs+12 > len(out) {
+					break
+				}
+				if m.Val%2 == 0 {
+					copy(out[fs+8:fs+12], []byte{0xFF, 0xFF, 0xFF, byte(m.Val)})
+					return out, "lenfield:chunksize"
+				}
+				copy(out[fs:fs+8], []byte{0, 0, 0xFF, 0xFF, 0xFF, 0xFF, 0xFF, byte(m.Val)})
+				return out, "lenfield:filesize"
+			}
+		}
+		if !isControl && len(out) >= 16 {
+			off := 8
+			if m.Val%2 == 0 {
+				off = 12
+			}
+			copy(out[off:off+4], []byte{0xFF, 0xFF, 0xFF, byte(m.Val)})
+			return out, "lenfield:frame"
+		}
+		if isControl && len(out) >= 3 {
+			put(3, 0xFF)
+			return out, "lenfield:record"
+		}
+	}
+	return out, ""
+}
+
+func (c15Harness) Run(spec any) (res verifsim.RunResult) {
+	sp := spec.(c15Spec)
+	res.Counters = map[string]int64{}
+	src, out, cleanup := newRunDirs()
+	defer cleanup()
+	if err := writeTree(src, sp.Base.ContentSeed, sp.Base.Files, sp.Base.Dirs); err != nil {
+		res.Skipped = true
+		return
+	}
+	rec := runEpisode(epCfg{sp: &sp.Base, seed: sp.Base.Seed, src: src, out: out, faultFree: true})
+	if rec.outcome != verifsim.Finished || rec.sendErr != nil || rec.recvErr != nil {
+		res.Skipped = true
+		res.Counters["recording_not_clean"]++
+		return
+	}
+	// the recorded transcript
+	var dataKeys []string
+	for k := range rec.wire.streams {
+		if k != rec.sCtlKey && k != rec.rCtlKey && senderSide(k, sp.Base.SenderCli) {
+			dataKeys = append(dataKeys, k)
+		}
+	}
+	sort.Slice(dataKeys, func(i, j int) bool { return rec.wire.streams[dataKeys[i]].id < rec.wire.streams[dataKeys[j]].id })
+	var streams [][]byte
+	if sp.Target == "recv" {
+		streams = append(streams, rec.wire.streams[rec.sCtlKey].buf)
+		for _, k := range dataKeys {
+			streams = append(streams, rec.wire.streams[k].buf)
+		}
+	} else {
+		ws := rec.wire.streams[rec.rCtlKey]
+		if ws == nil {
+			res.Skipped = true
+			return
+		}
+		streams = append(streams, ws.buf)
+	}
+	mr := verifsim.NewSplitMix(sp.Base.Seed ^ 0xC15)
+	var applied []string
+	for _, m := range sp.Muts {
+		i := m.Stream % len(streams)
+		nb, k := applyMut(streams[i], m, i == 0, sp.Target == "recv", mr)
+		if k != "" {
+			streams[i] = nb
+			applied = append(applied, k)
+			res.Counters["mutation:"+k]++
+		}
+	}
+	if len(applied) == 0 {
+		res.Skipped = true
+		return
+	}
+	os.RemoveAll(out)
+	os.MkdirAll(out, 0o755)
+	m := rec.manifest
+	script := scriptPeer{opens: sp.Target == "recv", streams: streams, lingerMs: sp.LingerMs, closeConn: sp.CloseConn}
+	var target func(ctx context.Context, conn Conn) error
+	if sp.Target == "recv" {
+		target = func(ctx context.Context, conn Conn) error {
+			_, err := RecvManifestMultiStream(ctx, conn, out, Options{Resume: sp.Base.ResumeR, NoRootDir: true, HashAlg: "crc32c"})
+			return err
+		}
+	} else {
+		target = func(ctx context.Context, conn Conn) error {
+			return SendManifestMultiStream(ctx, conn, src, m, Options{ChunkSize: sp.Base.Chunk, ParallelFiles: sp.Base.Streams, Resume: true, HashAlg: "crc32c"})
+		}
+	}
+	sr := runScript(sp.Base.Seed^0x5C, sp.Base.Strat, sp.Base.SegMax, script, target, false)
+	res.LogHash, res.Steps, res.SimTime, res.QStates = sr.hash, sr.steps, sr.sim, sr.qstates
+	res.Nontrivial = sr.steps > 10
+	res.Counters["target_"+sp.Target]++
+	if sr.targetRet && sr.targetErr == nil {
+		res.Counters["target_returned_nil"]++
+	} else if sr.targetRet {
+		res.Counters["target_returned_error"]++
+	}
+	res.Sample = map[string]any{"spec": sp, "mutations_applied": applied, "target_result": errStr(sr.targetErr), "returned": sr.targetRet, "bytes_in": sr.bytesIn, "alloc_delta": sr.allocDelta}
+	v := func(class, sig, detail string) {
+		res.Violations = append(res.Violations, &verifsim.Violation{Class: class, Signature: sig, Detail: detail, LogHash: verifsim.HashStr(sr.hash), Steps: sr.steps, Trace: sr.log})
+	}
+	if sr.bubblePanic != "" && !strings.Contains(sr.bubblePanic, "deadlock: main bubble goroutine has exited") {
+		v("harness-panic", firstLine(sr.bubblePanic), sr.bubblePanic)
+		return
+	}
+	if sr.panicMsg != "" {
+		v("panic", sp.Target+":"+panicSig(sr.panicMsg), fmt.Sprintf("%s panicked on malformed input (%v): %s", sp.Target, applied, sr.panicMsg))
+		return
+	}
+	if sr.outcome != verifsim.Finished || !sr.targetRet {
+		site := "?"
+		for _, b := range sr.blocked {
+			if strings.HasPrefix(b, "T@") {
+				site = b[2:]
+			}
+		}
+		v("blocked-after-end-of-input", sp.Target+":T@"+site, fmt.Sprintf("%s still blocked %v (simulated) after the input ended (mutations %v, close_conn=%v): %v", sp.Target, sr.sim-sr.endOfInput, applied, sp.CloseConn, sr.blocked))
+		return
+	}
+	limit := uint64(64*sr.bytesIn) + 48<<20
+	if sr.allocDelta > limit {
+		v("memory-out-of-proportion", sp.Target+":"+allocSig(sr.allocDelta), fmt.Sprintf("%s allocated %d bytes while %d bytes were received (mutations %v)", sp.Target, sr.allocDelta, sr.bytesIn, applied))
+	}
+	onlyData := true
+	for _, m := range sp.Muts {
+		if m.Stream%len(streams) == 0 {
+			onlyData = false // a changed control record or manifest is a different, well-formed request
+		}
+	}
+	if sp.Target == "recv" && sr.targetErr == nil && onlyData {
+		want := expectedDigest("", sp.Base.ContentSeed, sp.Base.Files, sp.Base.Dirs)
+		got, _ := digestTree(out, out)
+		if d := diffDigests(want, got); d != "" {
+			v("success-with-wrong-tree", treeDiffSig(want, got), fmt.Sprintf("receiver accepted mutated input (%v) and reported success with a different tree: %s", applied, d))
+		}
+	}
+	return
+}
+
+func panicSig(p string) string {
+	p = firstLine(p)
+	for _, pat := range []string{"index out of range", "slice bounds out of range", "nil pointer", "makeslice", "send on closed channel", "close of closed channel", "negative"} {
+		if strings.Contains(p, pat) {
+			return pat
+		}
+	}
+	if len(p) > 50 {
+		p = p[:50]
+	}
+	return p
+}
+
+func allocSig(n uint64) string {
+	switch {
+	case n >= 1<<30:
+		return ">=1GiB"
+	case n >= 256<<20:
+		return ">=256MiB"
+	}
+	return ">=48MiB"
 }
